@@ -1766,16 +1766,19 @@ impl<'input, T: Input> Scanner<'input, T> {
         // Chomp the tail.
         if chomping != Chomping::Strip {
             string.push_str(&leading_break);
-            // If we had reached an eof but the last character wasn't an end-of-line, check if the
-            // last line was indented at least as the rest of the scalar, then we need to consider
-            // there is a newline.
-            if self.input.next_is_z() && self.mark.col >= indent.max(1) {
+            // If we had reached an eof but the last content line wasn't terminated by an
+            // end-of-line, we need to consider there is a newline.
+            if self.input.next_is_z() && leading_break.is_empty() {
                 string.push('\n');
             }
         }
 
         if chomping == Chomping::Keep {
             string.push_str(&trailing_breaks);
+            // A last line made of spaces only and without a line break counts as an empty line.
+            if self.input.next_is_z() && !leading_break.is_empty() && self.mark.col > 0 {
+                string.push('\n');
+            }
         }
 
         Ok(Token(
